@@ -180,6 +180,7 @@ func (g *qgen) cond(alias string, t *PTable) string {
 		return fmt.Sprintf("%s = concat(%s, %s)", q(c.Name), p, p)
 	case k < 91 && g.risky:
 		g.tag("placeholder-left")
+		g.finding("placeholderLeft")
 		return fmt.Sprintf("%s = %s", g.param(""), q(c.Name))
 	case k < 94 && g.risky:
 		g.tag("bare-placeholder")
@@ -473,4 +474,325 @@ func renumberContiguous(sql string) (string, int) {
 		b.WriteByte(sql[i])
 	}
 	return b.String(), len(nums)
+}
+
+// corruptStmt: a single-name corruption — rename a table or a column in the query, remove the column in
+// a later migration, or make an unqualified column ambiguous by joining a second table that has it
+func corruptStmt(r *Rng, s QSchema, q QStmt, schema string) (QStmt, string) {
+	t := &s.Tables[r.Intn(3)]
+	c := t.Cols[1+r.Intn(len(t.Cols)-1)]
+	cname := strings.Trim(c.Name, "\"`")
+	switch r.Intn(6) {
+	case 0:
+		q.SQL = strings.Replace(q.SQL, t.Name, "nowhere", 1)
+		q.Tags = append(q.Tags, "corrupt:table-renamed")
+	case 1:
+		if strings.Contains(q.SQL, cname) {
+			q.SQL = strings.Replace(q.SQL, cname, "nope", 1)
+			q.Tags = append(q.Tags, "corrupt:column-renamed")
+		}
+	case 2:
+		if s.Engine == "postgresql" {
+			schema += fmt.Sprintf("ALTER TABLE %s DROP COLUMN %s;\n", t.Name, c.Name)
+			q.Tags = append(q.Tags, "corrupt:column-dropped-by-migration")
+		}
+	case 3:
+		if s.Engine == "postgresql" {
+			schema += fmt.Sprintf("ALTER TABLE %s RENAME COLUMN %s TO renamed_col;\n", t.Name, c.Name)
+			q.Tags = append(q.Tags, "corrupt:column-renamed-by-migration")
+		}
+	case 4:
+		// unqualified shared column over two tables
+		q.Cmd = ":many"
+		q.SQL = fmt.Sprintf("SELECT id FROM authors JOIN venues ON venues.id = authors.id WHERE name = %s", map[bool]string{true: "?", false: "$1"}[s.Engine == "mysql"])
+		q.NParams = 1
+		q.Known = nil
+		q.Tags = []string{"corrupt:ambiguous-join"}
+	default:
+		q.Cmd = ":one"
+		q.SQL = fmt.Sprintf("UPDATE %s SET nope = %s WHERE id = 1 RETURNING id", t.Name, map[bool]string{true: "?", false: "$1"}[s.Engine == "mysql"])
+		if s.Engine == "mysql" {
+			q.Cmd = ":exec"
+			q.SQL = fmt.Sprintf("UPDATE %s SET nope = ? WHERE id = 1", t.Name)
+		}
+		q.NParams = 1
+		q.Known = nil
+		q.Tags = []string{"corrupt:set-target-missing"}
+	}
+	return q, schema
+}
+
+// genStarStmt: star-heavy statements over tables that share column names and use reserved words
+func genStarStmt(r *Rng, s QSchema, idx int) QStmt {
+	q := QStmt{Name: fmt.Sprintf("Q%d", idx), Cmd: ":many"}
+	t := &s.Tables[r.Intn(3)]
+	u := &s.Tables[(r.Intn(2)+1+indexOfQ(s, t.Name))%3]
+	ph := "$1"
+	if s.Engine == "mysql" {
+		ph = "?"
+	}
+	switch r.Intn(8) {
+	case 0:
+		q.SQL = fmt.Sprintf("SELECT * FROM %s", t.Name)
+	case 1:
+		q.SQL = fmt.Sprintf("SELECT a.*, b.* FROM %s a JOIN %s b ON b.id = a.id", t.Name, u.Name)
+	case 2:
+		q.SQL = fmt.Sprintf("SELECT * FROM %s a JOIN %s b ON b.id = a.id WHERE a.id = %s", t.Name, u.Name, ph)
+		q.NParams = 1
+	case 3:
+		q.SQL = fmt.Sprintf("SELECT b.*, a.id FROM %s a, %s b WHERE a.id = b.id", t.Name, u.Name)
+	case 4:
+		q.SQL = fmt.Sprintf("SELECT *, * FROM %s", t.Name)
+	case 5:
+		if s.Engine == "postgresql" {
+			q.Cmd = ":one"
+			q.SQL = fmt.Sprintf("DELETE FROM %s WHERE id = $1 RETURNING *", t.Name)
+			q.NParams = 1
+		} else {
+			q.SQL = fmt.Sprintf("SELECT %s.* FROM %s", t.Name, t.Name)
+		}
+	case 6:
+		if s.Engine == "postgresql" {
+			q.SQL = fmt.Sprintf("WITH c AS (SELECT * FROM %s) SELECT c.* FROM c", t.Name)
+		} else {
+			q.SQL = fmt.Sprintf("SELECT x.* FROM %s x", t.Name)
+		}
+	default:
+		// reserved word as alias
+		al := `"group"`
+		if s.Engine == "mysql" {
+			al = "`group`"
+		}
+		q.SQL = fmt.Sprintf("SELECT %s.* FROM %s %s", al, t.Name, al)
+		q.Known = []string{"quotedScope"}
+	}
+	q.Tags = []string{"star"}
+	if strings.Contains(q.SQL, " JOIN ") || strings.Contains(q.SQL, ", ") {
+		q.Tags = append(q.Tags, "star-multi-table")
+	}
+	return q
+}
+
+// alterHistory: migrations that change columns the queries use, so that the final definition differs
+// from the CREATE TABLE text
+func alterHistory(r *Rng, s QSchema) string {
+	var b strings.Builder
+	for i := 0; i < 1+r.Intn(3); i++ {
+		t := s.Tables[r.Intn(3)]
+		c := t.Cols[1+r.Intn(len(t.Cols)-1)]
+		switch r.Intn(4) {
+		case 0:
+			b.WriteString(fmt.Sprintf("ALTER TABLE %s ALTER COLUMN %s SET NOT NULL;\n", t.Name, c.Name))
+		case 1:
+			b.WriteString(fmt.Sprintf("ALTER TABLE %s ALTER COLUMN %s DROP NOT NULL;\n", t.Name, c.Name))
+		case 2:
+			b.WriteString(fmt.Sprintf("ALTER TABLE %s ALTER COLUMN %s TYPE %s;\n", t.Name, c.Name, r.Pick([]string{"text", "bigint", "varchar(10)", "text[]"})))
+		default:
+			b.WriteString(fmt.Sprintf("ALTER TABLE %s ADD COLUMN extra_%d %s;\n", t.Name, i, r.Pick([]string{"int", "text NOT NULL", "uuid"})))
+		}
+	}
+	return b.String()
+}
+
+// hardenSchema: the situations C07 / C02 quantify over that the base schema lacks: a reserved-word column
+// shared by two tables, a column that only exists in quoted (mixed-case) spelling, a reserved-word table.
+func hardenSchema(r *Rng, s *QSchema) {
+	q := func(n string) string {
+		if s.Engine == "mysql" {
+			return "`" + n + "`"
+		}
+		return `"` + n + `"`
+	}
+	if r.Chance(45) {
+		s.Tables[2].Cols = append(s.Tables[2].Cols, PCol{q("order"), "int", r.Chance(50), false})
+	}
+	if r.Chance(25) {
+		s.Tables[0].Cols = append(s.Tables[0].Cols, PCol{q("Mixed"), "text", r.Chance(50), false})
+	}
+	if r.Chance(25) {
+		s.Tables[0].Cols = append(s.Tables[0].Cols, PCol{q("select"), "text", r.Chance(50), false})
+	}
+}
+
+// genShapeStmt: result-shape stress for C02 — nested from-items, scalar sub-selects, set operations,
+// aggregates, unnamed expressions, RETURNING lists
+func genShapeStmt(r *Rng, s QSchema, idx int) QStmt {
+	q := QStmt{Name: fmt.Sprintf("Q%d", idx), Cmd: ":many"}
+	pg := s.Engine != "mysql"
+	t := &s.Tables[r.Intn(3)]
+	u := &s.Tables[(r.Intn(2)+1+indexOfQ(s, t.Name))%3]
+	c1 := t.Cols[1+r.Intn(len(t.Cols)-1)].Name
+	d1 := u.Cols[1+r.Intn(len(u.Cols)-1)].Name
+	ph := "$1"
+	if !pg {
+		ph = "?"
+	}
+	k := r.Intn(16)
+	tag := ""
+	switch k {
+	case 0:
+		tag = "derived-star-star"
+		q.SQL = fmt.Sprintf("SELECT * FROM (SELECT * FROM %s) s", t.Name)
+		q.Known = []string{"subselectLeak"}
+	case 1:
+		tag = "derived-qualified-star"
+		q.SQL = fmt.Sprintf("SELECT s.* FROM (SELECT id, %s FROM %s) s", c1, t.Name)
+		q.Known = []string{"subselectLeak"}
+	case 2:
+		tag = "scalar-subselect-target"
+		q.SQL = fmt.Sprintf("SELECT a.id, (SELECT count(*) FROM %s b WHERE b.id = a.id) AS n FROM %s a", u.Name, t.Name)
+	case 3:
+		tag = "star-plus-subselect"
+		q.SQL = fmt.Sprintf("SELECT a.*, (SELECT max(b.id) FROM %s b) AS top FROM %s a WHERE a.id = %s", u.Name, t.Name, ph)
+		q.NParams = 1
+	case 4:
+		tag = "left-join-mixed"
+		q.SQL = fmt.Sprintf("SELECT a.*, b.%s AS x FROM %s a LEFT JOIN %s b ON b.id = a.id", d1, t.Name, u.Name)
+	case 5:
+		tag = "in-subselect"
+		q.SQL = fmt.Sprintf("SELECT * FROM %s WHERE id IN (SELECT id FROM %s)", t.Name, u.Name)
+	case 6:
+		tag = "unnamed-exprs"
+		q.SQL = fmt.Sprintf("SELECT 1, 'a', id + 1, %s FROM %s", c1, t.Name)
+	case 7:
+		tag = "aggregates"
+		q.Cmd = ":one"
+		q.SQL = fmt.Sprintf("SELECT count(*), max(id) AS top, min(%s) FROM %s", c1, t.Name)
+	case 8:
+		tag = "group-by"
+		q.SQL = fmt.Sprintf("SELECT %s, count(*) AS n FROM %s GROUP BY %s", c1, t.Name, c1)
+	case 9:
+		tag = "distinct"
+		q.SQL = fmt.Sprintf("SELECT DISTINCT %s, id FROM %s ORDER BY id", c1, t.Name)
+	case 10:
+		tag = "union-all"
+		q.SQL = fmt.Sprintf("SELECT id FROM %s UNION ALL SELECT id FROM %s", t.Name, u.Name)
+	case 11:
+		if pg {
+			tag = "returning-list"
+			q.Cmd = ":one"
+			q.SQL = fmt.Sprintf("UPDATE %s SET %s = %s WHERE id = $1 RETURNING id, %s AS changed, *", t.Name, c1, c1, c1)
+			q.NParams = 1
+		} else {
+			tag = "three-way"
+			q.SQL = fmt.Sprintf("SELECT a.id, b.id, c.id FROM %s a JOIN %s b ON b.id = a.id JOIN %s c ON c.id = b.id", t.Name, u.Name, t.Name)
+		}
+	case 12:
+		tag = "cte-join"
+		if pg {
+			q.SQL = fmt.Sprintf("WITH c AS (SELECT id, %s FROM %s) SELECT c.*, b.id AS bid FROM c JOIN %s b ON b.id = c.id", c1, t.Name, u.Name)
+		} else {
+			q.SQL = fmt.Sprintf("SELECT a.*, b.* FROM %s a JOIN %s b ON b.id = a.id", t.Name, u.Name)
+		}
+	case 13:
+		tag = "self-join"
+		q.SQL = fmt.Sprintf("SELECT a.*, b.* FROM %s a JOIN %s b ON b.id = a.id", t.Name, t.Name)
+	case 14:
+		tag = "derived-join"
+		q.SQL = fmt.Sprintf("SELECT a.id, s.id AS sid FROM %s a JOIN (SELECT id FROM %s) s ON s.id = a.id", t.Name, u.Name)
+		q.Known = []string{"subselectLeak"}
+	default:
+		tag = "case-cast"
+		if pg {
+			q.SQL = fmt.Sprintf("SELECT id::text, CASE WHEN id > 1 THEN 'a' ELSE 'b' END, coalesce(%s, %s) FROM %s", c1, c1, t.Name)
+		} else {
+			q.SQL = fmt.Sprintf("SELECT CASE WHEN id > 1 THEN 'a' ELSE 'b' END, coalesce(%s, %s) FROM %s", c1, c1, t.Name)
+		}
+	}
+	q.Tags = []string{"shape:" + tag}
+	return q
+}
+
+// genNearModelStmt: statements whose result list is (almost) one table's column list — the situations in
+// which buildQueries decides whether to return the model struct (C05's second and third clause)
+func genNearModelStmt(r *Rng, s QSchema, idx int) (QStmt, string) {
+	q := QStmt{Name: fmt.Sprintf("Q%d", idx), Cmd: r.Pick([]string{":many", ":one"})}
+	t := &s.Tables[r.Intn(3)]
+	u := &s.Tables[(r.Intn(2)+1+indexOfQ(s, t.Name))%3]
+	names := make([]string, len(t.Cols))
+	for i, c := range t.Cols {
+		names[i] = c.Name
+	}
+	exact := strings.Join(names, ", ")
+	must := ""
+	tag := ""
+	k := r.Intn(10)
+	j := 1 + r.Intn(len(names)-1)
+	switch k {
+	case 0:
+		tag, must = "exact-list", t.Name
+		q.SQL = fmt.Sprintf("SELECT %s FROM %s", exact, t.Name)
+	case 1:
+		tag, must = "star", t.Name
+		q.SQL = fmt.Sprintf("SELECT * FROM %s", t.Name)
+	case 2:
+		tag = "coalesce-same-name"
+		l := append([]string{}, names...)
+		l[j] = fmt.Sprintf("coalesce(%s, %s) AS %s", names[j], names[j], names[j])
+		q.SQL = fmt.Sprintf("SELECT %s FROM %s", strings.Join(l, ", "), t.Name)
+	case 3:
+		tag = "swapped-aliases"
+		l := append([]string{}, names...)
+		j2 := 1 + (j % (len(names) - 1))
+		if j2 == j {
+			j2 = 0
+		}
+		l[j] = names[j2] + " AS " + names[j]
+		l[j2] = names[j] + " AS " + names[j2]
+		q.SQL = fmt.Sprintf("SELECT %s FROM %s", strings.Join(l, ", "), t.Name)
+	case 4:
+		tag = "reordered"
+		l := append([]string{}, names...)
+		l[0], l[j] = l[j], l[0]
+		q.SQL = fmt.Sprintf("SELECT %s FROM %s", strings.Join(l, ", "), t.Name)
+	case 5:
+		tag = "aliased-star"
+		q.SQL = fmt.Sprintf("SELECT a.* FROM %s a", t.Name)
+	case 6:
+		tag = "join-one-side"
+		var l []string
+		for _, n := range names {
+			l = append(l, "a."+n)
+		}
+		q.SQL = fmt.Sprintf("SELECT %s FROM %s a JOIN %s b ON b.id = a.id", strings.Join(l, ", "), t.Name, u.Name)
+	case 7:
+		tag = "prefix-of-columns"
+		q.SQL = fmt.Sprintf("SELECT %s FROM %s", strings.Join(names[:len(names)-1], ", "), t.Name)
+	case 8:
+		if s.Engine != "mysql" {
+			tag = "cast-same-name"
+			l := append([]string{}, names...)
+			l[j] = fmt.Sprintf("%s::text AS %s", names[j], strings.Trim(names[j], "\"`"))
+			q.SQL = fmt.Sprintf("SELECT %s FROM %s", strings.Join(l, ", "), t.Name)
+		} else {
+			tag, must = "exact-list-where", t.Name
+			q.SQL = fmt.Sprintf("SELECT %s FROM %s WHERE id = ?", exact, t.Name)
+			q.NParams = 1
+		}
+	default:
+		if s.Engine != "mysql" {
+			tag = "returning-star"
+			q.Cmd = ":one"
+			q.SQL = fmt.Sprintf("DELETE FROM %s WHERE id = $1 RETURNING *", t.Name)
+			q.NParams = 1
+		} else {
+			tag, must = "qualified-star", t.Name
+			q.SQL = fmt.Sprintf("SELECT %s.* FROM %s", t.Name, t.Name)
+		}
+	}
+	q.Tags = []string{"nearmodel:" + tag}
+	return q, must
+}
+
+// seedQueries: one plain all-columns query per table, placed BEFORE the query under test in the package
+func seedQueries(s QSchema) string {
+	var b strings.Builder
+	for i, t := range s.Tables[:3] {
+		var names []string
+		for _, c := range t.Cols {
+			names = append(names, c.Name)
+		}
+		fmt.Fprintf(&b, "-- name: Seed%d :many\nSELECT %s FROM %s;\n\n", i, strings.Join(names, ", "), t.Name)
+	}
+	return b.String()
 }
